@@ -37,7 +37,7 @@ Proof.
 Qed.
 
 (* C07_not_refused_early: one second earlier the same history is accepted; hypotheses hold *)
-Definition ex_ops3 := [Put 0 1 2; Tick 99; Sync 0 ANone].
+Definition ex_ops3 := [Put 0 1 2; SyncFail 0 ANone; Tick 99; Sync 0 ANone].
 Example ex_not_refused_early_hyps : exists st1 d,
   step cfg_fixed (run cfg_fixed init_state ex_ops1) (Sync 0 ANone) = (st1, RSync (Delta ex_tok d)) /\
   ANone <> ATok ex_tok /\
@@ -50,9 +50,14 @@ Proof.
   - vm_compute. reflexivity.
 Qed.
 
+(* a failed token write really occurs in the model (new token after a change) *)
+Example ex_failed_write : exists st',
+  step cfg_fixed (run cfg_fixed init_state ex_ops1) (SyncFail 0 ANone) = (st', RFail).
+Proof. eexists. vm_compute. reflexivity. Qed.
+
 (* C07_uptodate / C07_propfind_eq: quiet operations that are not trivial -- time beyond the maximum age,
    other clients' syncs (also refused ones), changes in another collection, deletion of its cache *)
-Definition ex_quiet := [Tick 250; Sync 0 ANone; Sync 0 AMal; Sync 0 (ATok (Tok [])); PTok 0;
+Definition ex_quiet := [Tick 250; SyncFail 0 ANone; Sync 0 ANone; Sync 0 AMal; Sync 0 (ATok (Tok [])); PTok 0;
                         Replace 1 [(0, 7)]; Put 1 1 8; Move 1 1 1 2; DropCache 1 true; Tick 1].
 Example ex_uptodate_hyps : exists st1,
   sync_cleans_history cfg_fixed = false /\
